@@ -215,6 +215,19 @@ def build_ops(tmp, rnd):
         sampling.sample(m, ThetaHolder(n_thetas=2), seed, n_chains=2, chain_index=1, n_burnin=1, thin=1)
         return repr([bits(x) for x in m.drawn])
     ops["train:sampling.sample(model drawing from the generator it is handed)"] = (sample_stub, "stub-model", None)
+    # the variational branch of sampling.sample (the grid model takes it): a stub that draws from the generator it is handed
+    from harness.drivers.c17 import CountVI
+
+    class DrawingVI(CountVI):
+        def sample(self, num_samples):
+            self.drawn = [float(self.rng.normal()) for _ in range(num_samples)]
+            return super().sample(num_samples)
+
+    def sample_vi(seed):
+        m = DrawingVI()
+        sampling.sample(m, ThetaHolder(n_thetas=2), seed, n_chains=2, chain_index=1, n_burnin=1, thin=1)
+        return repr([bits(x) for x in m.drawn])
+    ops["train:sampling.sample(variational model drawing from the generator it is handed)"] = (sample_vi, "stub-vi-model", None)
     # model training through sampling.sample
     obs_scr = small_screen(7, observed_frac=1.0).screen(all_observed=True)
     for mname, cls, kw in (("SparseDrugCombo", SparseDrugCombo, {}), ("SparseDrugComboInteraction", SparseDrugComboInteraction, {})):
